@@ -1,14 +1,16 @@
 import PyamgV.Proofs.ExtC03YBlock
 import PyamgV.Proofs.ExtC03YJac
 import PyamgV.Proofs.ExtC09XDense
+import PyamgV.Proofs.ExtC03YBsrRows
 
 /-! PyamgV (extension E55, C03): the smoothers of BSR levels that E38 left to probed matrices, as recorded calls of the
 scalar-polymorphic extended cycle model, over any field:
 
 * `bsrgs` / `bsrjac` -- `relaxation.gauss_seidel` / `sor` / `jacobi` on a BSR level.  The kernels `bsr_gauss_seidel` /
   `bsr_jacobi` are the point kernels on the point rows of the BSR arrays (`C03Y.bsrToCsr`, the reading C09 part A compares
-  with the kernels); `Sm.OK` asks that the dense form of these point rows is the level matrix (and that every point row stores
-  exactly one non-zero diagonal entry), so the theorems `gs_semLin` / `jac_semLin` apply to them verbatim;
+  with the kernels); the dense form of these point rows is the dense form of the BSR arrays (`csrDense_bsrToCsr`), so when the
+  BSR arrays are the level matrix and every point row stores exactly one non-zero diagonal entry the theorems `gs_semLin` /
+  `jac_semLin` apply;
 * `cfbjac` -- `relaxation.cf_block_jacobi` / `fc_block_jacobi` (kernel `block_jacobi_indexed`, model
   `ExtC09X.pyCFBlockJacobi`) with inverse diagonal blocks `Dinv_i A_ii = I`: `c_iterations` sweeps `x + ω E_C D⁻¹ E_Cᵀ (b − A x)`
   over the C block rows and `f_iterations` sweeps over the F block rows in the stated order, `iterations` times. -/
@@ -31,16 +33,20 @@ theorem bsrToCsr_n (M : Bsr 𝕜) : (bsrToCsr M).n = M.nb * M.bs := rfl
 
 /-- **Gauss-Seidel / SOR on a BSR level (`bsr_gauss_seidel`, resp. `tocsr` + SOR kernel) is a linear iteration of the level
 matrix** -/
-theorem bsrgs_semLin (ω : 𝕜) (M : Bsr 𝕜) (it : Nat) (sw : Sweep) (hc : ColsOK (bsrToCsr M)) (hd : DiagOK (bsrToCsr M)) :
-    SemLin (csrDense (bsrToCsr M)) (viaArr (M.nb * M.bs) (Sm.arr conj (.bsrgs ω M it sw)))
-      (Tn (M.nb * M.bs) ∘ₗ bsrgsQ ω M it sw ∘ₗ Tn (M.nb * M.bs)) :=
-  gs_semLin (conj := conj) ω (bsrToCsr M) it sw hc hd
+theorem bsrgs_semLin (ω : 𝕜) (M : Bsr 𝕜) (it : Nat) (sw : Sweep) (hbs : 0 < M.bs) (hc : ColsOK (bsrToCsr M))
+    (hd : DiagOK (bsrToCsr M)) :
+    SemLin (bsrDense M) (viaArr (M.nb * M.bs) (Sm.arr conj (.bsrgs ω M it sw)))
+      (Tn (M.nb * M.bs) ∘ₗ bsrgsQ ω M it sw ∘ₗ Tn (M.nb * M.bs)) := by
+  rw [← csrDense_bsrToCsr M hbs]
+  exact gs_semLin (conj := conj) ω (bsrToCsr M) it sw hc hd
 
 /-- **weighted Jacobi on a BSR level (`bsr_jacobi`) is `x ← x + ω D⁻¹ (b − A x)`, `iterations` times** -/
-theorem bsrjac_semLin (ω : 𝕜) (M : Bsr 𝕜) (it : Nat) (hc : ColsOK (bsrToCsr M)) (hd : DiagOK (bsrToCsr M)) :
-    SemLin (csrDense (bsrToCsr M)) (viaArr (M.nb * M.bs) (Sm.arr conj (.bsrjac ω M it)))
-      (Tn (M.nb * M.bs) ∘ₗ bsrjacQ ω M it ∘ₗ Tn (M.nb * M.bs)) :=
-  jac_semLin (conj := conj) ω (bsrToCsr M) it hc hd
+theorem bsrjac_semLin (ω : 𝕜) (M : Bsr 𝕜) (it : Nat) (hbs : 0 < M.bs) (hc : ColsOK (bsrToCsr M))
+    (hd : DiagOK (bsrToCsr M)) :
+    SemLin (bsrDense M) (viaArr (M.nb * M.bs) (Sm.arr conj (.bsrjac ω M it)))
+      (Tn (M.nb * M.bs) ∘ₗ bsrjacQ ω M it ∘ₗ Tn (M.nb * M.bs)) := by
+  rw [← csrDense_bsrToCsr M hbs]
+  exact jac_semLin (conj := conj) ω (bsrToCsr M) it hc hd
 
 /-! ## CF / FC block Jacobi -/
 
